@@ -888,6 +888,31 @@ def mon_c14(res):
     return fails
 
 
+def mon_c10(res):
+    fails = []
+    exp = res.case.get("exp")
+    if not exp or "c10" not in exp:
+        return fails
+    c = exp["c10"]
+    should_ok = not c["stuck"] and not c["hard_error"]
+    if res.hv[0] == "ok" and not should_ok:
+        fails.append(dict(clause="C10.accepted_unresolvable", detail="stuck items %s, undefined name elsewhere: %s" % (c["stuck"], c["hard_error"])))
+    if res.hv[0] != "ok" and should_ok:
+        fails.append(dict(clause="C10.rejected_resolvable", detail="all names defined and by-value embedding acyclic, yet: %s %s" % (res.hv[0], str(res.hv[1])[:200])))
+    if res.hv[0] == "noprogress" and res.hv[1] is not None and sorted(res.hv[1]) != c["stuck"]:
+        fails.append(dict(clause="C10.noprogress_list", detail="error lists %s, the unresolvable items are %s" % (sorted(res.hv[1]), c["stuck"])))
+    if res.hv[0] == "ok":
+        reg = registry_of(res)
+        missing = [p for p in c["all_items"] if tuple(p.split("::")) not in reg]
+        if missing:
+            fails.append(dict(clause="C10.item_left_out", detail="accepted, but %s are not in the registry" % missing))
+        for p in c["all_items"]:
+            f, name = file_of_type(res, p)
+            if struct_of(f, name) is None:
+                fails.append(dict(clause="C10.item_not_emitted", detail=p))
+    return fails
+
+
 # ------------------------------------------------------------------------------------------------
 # property table
 
@@ -1131,6 +1156,58 @@ PROPS["C20"] = dict(
     level_text="Proved in Coq (Properties/C20.v), each as 'the model computes the same result': explicit address = natural address, size attribute = natural size, index = natural slot, enum value = implicit value. "
                "Gap-vs-address, number spelling and reordering have no theorem (partial); they, and all the others again on the real code, are decided by the monitor: original and rewritten description built by the real pyxis, outputs byte-identical.",
     level_note="Trusted: Coq kernel; model validated by this run's correspondence (verdict, file set, registry on both sides); byte identity is observed on the implementation (content hash of every output file).",
+)
+
+import c09  # noqa: E402
+PROPS["C09"] = dict(
+    runner=c09.runner, aspects=["verdict"], n=(40, 600), corpus=["common", "C09"],
+    rule="tools/c09.py: dependency-rich inputs (2..5 user items in 1..3 modules, by-value nesting, bases, vftables, forward references, 15% near-misses); for each: every first-round "
+         "resolution order when <= 5 items (sampled beyond) plus random full schedules through the cfg(pyxis_verif) hook (24 quick / 120 thorough schedules per input), 4 / 8 builds without the hook (real hash seeds, same and fresh processes), "
+         "and up to 6 / 24 permutations of module-addition order through the API; all outcomes (verdict, no-progress set, content hash of every output file) must coincide; non-trivial = accepted input with >= 2 user items",
+    level_text="Proved in Coq (Properties/C09.v): order-independence of any worklist loop of pyxis's shape under monotone attempts (Confluence.v: outcome class and final state equal for every pair of permutation-valued order functions, any number of items); "
+               "name resolution depends only on the key set; known sizes/alignments never change as more items resolve. Not proved: that the model's whole attempt is monotone (it was not at the pinned commit: F7a repaired, F7b listed) -- so the claim is partial and the "
+               "property is decided on the real code by the monitor: schedule enumeration through the hook, module-order permutations, repeated and fresh-process builds, byte comparison.",
+    level_note="Trusted: Coq kernel; the 10-line hook in TypeRegistry::unresolved (orders by a caller-chosen permutation of the sorted paths; with the guard off the code is unchanged); model validated per schedule by this run's correspondence.",
+    technique="Coq proof of abstract confluence + registry-read monotonicity; exhaustive/sampled schedule enumeration on the real implementation through a cfg-guarded hook",
+)
+
+PROPS["C10"] = dict(
+    generator=gen_special.gen_c10, n=(600, 10000), corpus=["common", "C10"],
+    aspects=["verdict", "noprogress_set", "items", "fn_sig", "registry", "fileset"],
+    monitors=[mon_c10],
+    nontrivial=lambda res: res.case.get("exp") and "c10" in res.case["exp"] and res.case["exp"]["c10"]["n"] >= 3,
+    rule="tools/gen_special.py gen_c10: random dependency graphs over 2..12 types/enums in 1..4 modules (every module imports the others): by-value fields, arrays, bases, enum base types, "
+         "pointers (free to point into cycles); 45% acyclic and fully defined, the rest with by-value back edges and/or undefined names in fields, enum bases, parameters, return types, extern values; "
+         "the expected set of unresolvable items is computed from the graph (least fixpoint of 'resolvable'); non-trivial = graph with >= 3 items",
+    level_text="Proved in Coq (Properties/C10.v): a self-supporting set of items (each has an undefined field-type name or depends by value on a member) never resolves, and a no-progress end state is self-supporting "
+               "(Confluence.v, abstract, any number of items); the loop needs at most 1 + #items rounds (C12); pointer sizes never read the pointee; a field with an undefined type defers, an undefined parameter or return type rejects (C05); "
+               "nothing is dropped: every declared parameter and the return type reach the emitted signature. The instantiation of the abstract theory with the model's attempt (N1/N2) is not proved (partial). "
+               "The monitor decides the property on the real code against the graph-theoretic expectation: accepted iff all names defined and by-value embedding acyclic; the no-progress error lists exactly the unresolvable items; accepted builds contain every item.",
+    level_note="Trusted: Coq kernel; model validated by this run's correspondence (verdict, no-progress set, items, signatures); the expectation is computed by the generator from the graph it drew.",
+)
+
+import c19  # noqa: E402
+PROPS["C19"] = dict(
+    runner=c19.runner, aspects=["verdict"], n=(250, 5000),
+    rule="tools/c19.py: accepted multi-module inputs (2..4 modules, cross-module use lines); an observed module and its import closure (use lines as module paths or parents of type paths); "
+         "one change outside the closure (a new module, removal of an unimported module, a type / enum / singleton type added to an unrelated module); both sets built by the real pyxis; the observed module's file compared by content hash. "
+         "10% of the pairs are *related* changes (sanity: they must be able to alter the file). non-trivial = both accepted and the change is unrelated",
+    level_text="Proved in Coq (Properties/C19.v): name lookup consults the registry only at scope-derived paths (so entries elsewhere are invisible to it); known sizes/alignments are stable under registry extension; a module's file is assembled only from its own paths/values/blocks (C14). "
+               "The end-to-end two-build statement is not proved (partial, depends on C09's unproved attempt-monotonicity); the monitor decides it on the real code by byte comparison of the observed module's file across unrelated changes.",
+    level_note="Trusted: Coq kernel; model validated by this run's correspondence on both sides of every pair; closure computed by the generator from the use lines it wrote.",
+)
+
+import c18  # noqa: E402
+PROPS["C18"] = dict(
+    runner=c18.runner, aspects=["parser_model"], n=(500, 20000),
+    rule="tools/c18.py: A. abstract modules over the full grammar (module attributes, use paths incl. the generics hack, extern types/values, types with fields, `_` fields and vftable blocks, enums, impl blocks, backend blocks in all three forms; "
+         "attribute shapes ident / function / assignment; type nesting up to 5; integers up to the isize/usize limits) printed with randomised whitespace, line/block comments, trailing commas, several attributes per bracket, doc comments vs #[doc], "
+         "decimal/hex/binary/octal/underscore literals, escaped and raw strings, arbitrary interleaving of the six statement classes; the real parser must return exactly the generated module. "
+         "B. 3000 (quick) type and attribute-list strings, 35% of them token-mutated: the Coq parser on the real lexer's token stream must agree with the real parser. non-trivial = distinct module whose AST has > 200 characters",
+    level_text="Proved in Coq (Properties/C18.v): parse(print x) = x for types (any nesting, incl. the generics hack), expressions and attribute lists (any length). Items, functions, statements, the module loop and lexing are not modelled (partial); "
+               "for them the monitor runs the real parser on randomised concrete syntax of generated abstract modules and demands the identical module back; the Coq parser is tied to the real one on the modelled sub-languages by running both on the same token streams (valid and mutated).",
+    level_note="Trusted: Coq kernel; tools/c18.py's printer (it defines 'written out in concrete syntax'); proc_macro2 as the lexer both parsers consume.",
+    technique="Coq round-trip proofs for the modelled sub-grammars + differential testing real parser vs generated ASTs and vs the Coq parser",
 )
 
 NOT_YET = {}
